@@ -17,6 +17,7 @@ EXPLANATION = (
     "Sync/Send bounds of broadcast/par_extend and the exact list of unsafe Send/Sync impls."
     " R06.8 the type-erased hop hands the index through unchanged, once: Task::run makes exactly one call - the function pointer stored in its own task block, with that block and thread_id - and the stored pointer is the trampoline that calls the block's closure exactly once with the index it was given. R06.9 position p of the sender list belongs to the worker with index p+1: spawn appends the ids threads.len()+1.. in order (mapped by nothing but Iterator::map, or pushed once per iteration of a loop over that range) and what it appends for an id is the sender half of the channel whose receiver half and id the started worker captures.")
 EXPLANATION += (" R06.5 also: the task closure's base pointer is vec.as_mut_ptr().add(old_len), old_len read before the vector grows.")
+EXPLANATION += (" R06.10 util::defer's Drop calls its closure unconditionally (the worker loop's abort guard fires while unwinding).")
 NOT_DECIDED = ["exactly-once / happens-before as properties of all interleavings (model-checking family)",
                "semantics of mpsc::sync_channel(0), park/unpark and atomics (trusted std)"]
 TRUSTED = ["std::sync::mpsc rendezvous channel, std::thread::park/unpark token semantics, Atomic orderings"]
